@@ -116,13 +116,11 @@ def elem_bound(prog, iv, f, tree):
     t = strip(tree)
     while t[0] == "cast":
         t = strip(t[2])
-    fld = None
-    for x in leaves(t):
-        if x[0] == "field" and self_field(x) and x[2] == self_field(x):
-            fld = x[2]
-    s = tree_str(strip_deep(t))
-    if fld is None or not (s.startswith("next(") or s.startswith("index(")):
+    import elems
+    e0 = elems.elem_of(tree)
+    if e0 is None or e0[1] or not self_field(strip(e0[0])):
         return None
+    fld = self_field(strip(e0[0]))
     adt = f.self_ty.split("<")[0]
     out, first = None, True
     from intervals import join
@@ -368,7 +366,10 @@ def _iterator_bounded(prog, iv, f, next_call, block):
             ok, why = _param_bounded(prog, iv, f, sh[1])
             if ok:
                 return True, "0..<parameter %d>, bounded at every call site: %s" % (sh[1], why)
-            return False, "range end is parameter %d: %s" % (sh[1], why)
+            ok2, why2 = _fill_bound_ok(prog, iv, f, sh)
+            if ok2:
+                return True, "0..<parameter %d>: %s" % (sh[1], why2)
+            return False, "range end is parameter %d: %s / %s" % (sh[1], why, why2)
         return False, "range end %s" % tree_str(strip_deep(hi))[:80]
     s = tree_str(strip_deep(src))
     return True, "an in-memory collection / document (%s)" % s[:60]
